@@ -281,4 +281,32 @@ example : ¬ SignNode.Survives exNode [false] := fun h => absurd h.2 (by decide)
 
 end NonVacuity
 
+/-! ### the file-system hypothesis is necessary
+`Ev.crash` keeps the state file as the last completed `rename` left it. `WriteFileAtomic` opens the
+temp file `O_SYNC` but never fsyncs the directory, so after a *power loss* (not a process crash) the
+directory entry may still point to the previous file. If a crash can undo the last rename, the
+main clause is false — so "rename is durable once it returned" is a genuine hypothesis of
+`released_consistent`, not a convenience. -/
+
+/-- a crash after which the state file is `prev` again (the last rename did not survive) -/
+def crashLosingRename {Sig : Type} (prev : LSS Sig) (c : Cfg Sig) : Cfg Sig :=
+  { c with disk := prev, mem := prev, pc := .idle }
+
+def exSBA : SB := { typ := 1, h := 1, r := 0, pol := 0, bid := some exBid, ts := 5, chain := "c" }
+def exSBN : SB := { typ := 1, h := 1, r := 0, pol := 0, bid := none, ts := 6, chain := "c" }
+/-- a prevote for block A is released; the rename is lost; a prevote for nil at the same
+height/round is then freshly signed and released -/
+def exLostRename : Cfg SB :=
+  run id (crashLosingRename genesis
+      (run id (init genesis) [.req (exReq 5), .tick, .tick, .tick, .tick, .tick]))
+    [.req (exNil 6), .tick, .tick, .tick, .tick, .tick]
+
+theorem rename_durability_needed :
+    ∃ e1 ∈ exLostRename.rel, ∃ e2 ∈ exLostRename.rel,
+      hrsOf e1.sb = hrsOf e2.sb ∧ e1.sb.bid ≠ e2.sb.bid := by
+  have h : exLostRename.rel = [⟨exSBN, exSBN, exSBN⟩, ⟨exSBA, exSBA, exSBA⟩] := rfl
+  refine ⟨⟨exSBA, exSBA, exSBA⟩, ?_, ⟨exSBN, exSBN, exSBN⟩, ?_, by decide, by decide⟩
+  · rw [h]; exact List.mem_cons_of_mem _ (List.mem_cons_self ..)
+  · rw [h]; exact List.mem_cons_self ..
+
 end Tmv.Props.C04
